@@ -28,11 +28,23 @@ def verdict(text, registry=None):
     return res.verdict, res.ast, res
 
 
-def base_query(r, shard, big=False):
+def base_query(r, shard, big=False, registry=None):
     """A valid well-typed query over the whole lexical space."""
     ast, text, used = diff.make_query(r, shard, filters=True, names=NAMES, strings=STRINGS, min_segs=0,
-                                      max_segs=4, blank_p=r.choice([0.0, 0.1, 0.3, 0.6]), big_ints=True)
+                                      max_segs=4, blank_p=r.choice([0.0, 0.1, 0.3, 0.6]), big_ints=True, registry=registry)
     return ast, text, used
+
+
+_PROBE_ENV = []
+
+
+def probe_env():
+    """An environment that also knows functions with LogicalType / NodesType parameters and results (the 39 probe
+    signatures of C10): grammar questions about function arguments only arise when such functions exist."""
+    if not _PROBE_ENV:
+        from checks import c10
+        _PROBE_ENV.append(c10.lib_env())
+    return _PROBE_ENV[0]
 
 
 def examine_accept(case):
@@ -55,6 +67,11 @@ def examine_reject(case):
     if v != abnf.INVALID:
         return None
     status, got = lib.compile_(case["q"])
+    if status != "ok" and got["jsonpath_error"] and "(" in case["q"]:
+        # not derivable is not derivable whatever functions are registered: ask an environment with more of them too
+        s2, g2 = lib.compile_(case["q"], probe_env())
+        if s2 == "ok" or not g2["jsonpath_error"]:
+            status, got = s2, g2
     if status == "ok":
         return {"bucket": f"accepted:{'/'.join(res.rules)[:60]}:{M.position_class(case['q'], res.far)}",
                 "what": f"{case['q']!r} is outside the RFC 9535 grammar (reference stops at offset {res.far}, "
